@@ -54,6 +54,10 @@ type Target struct {
 	Dispatch []Dispatch // switch-dispatch extraction
 	State    map[string][]string // receiver type -> threaded state fields
 	Requires []string   // other generated modules this one refers to
+	Mode     string     // "" (classic) | "abs" (abstract environment mode, see abs.go)
+	Blocks   []Block    // abs mode: bodies of if-statements extracted by anchor
+	Prelude  string     // extra Gallina text emitted after the header (abs mode helpers)
+	Consts   []string   // package-level integer constants emitted as `Definition name : Z := value.`
 }
 
 type Dispatch struct {
@@ -93,7 +97,9 @@ func main() {
 	}
 	imp = importer.ForCompiler(fset, "source", nil)
 	for _, t := range targets {
-		pkgToMod[modPath+"/"+t.Dir] = t.Module
+		if _, dup := pkgToMod[modPath+"/"+t.Dir]; !dup { // several modules may come from one package: the first one owns the package
+			pkgToMod[modPath+"/"+t.Dir] = t.Module
+		}
 	}
 	os.MkdirAll(outDir, 0o755)
 	for _, t := range targets {
@@ -130,7 +136,20 @@ type pkgInfo struct {
 	vars  map[string]*ast.ValueSpec
 }
 
+var pkgCache = map[string]*pkgInfo{} // several modules may be translated from one package
+
 func loadPkg(dir string) (*pkgInfo, error) {
+	if pi, ok := pkgCache[dir]; ok {
+		return pi, nil
+	}
+	pi, err := loadPkgUncached(dir)
+	if err == nil {
+		pkgCache[dir] = pi
+	}
+	return pi, err
+}
+
+func loadPkgUncached(dir string) (*pkgInfo, error) {
 	ctx := build.Default
 	bp, err := ctx.ImportDir(dir, 0)
 	if err != nil {
@@ -204,7 +223,13 @@ func translateTarget(t Target) (string, error) {
 	}
 	sb.WriteString("Import ListNotations.\nLocal Open Scope Z_scope.\n\n")
 
-	tr := &translator{pi: pi, t: t, errCodes: map[string]int{}}
+	tr := &translator{pi: pi, t: t, errCodes: map[string]int{}, effIdx: map[string]int{}, optFuncs: map[string]bool{}}
+	if t.Mode == "abs" {
+		if len(t.Blocks) > 0 {
+			sb.WriteString(absPrelude)
+		}
+		sb.WriteString(t.Prelude)
+	}
 	// error variables of this package: stable codes by sorted name
 	var errNames []string
 	for name, vs := range pi.vars {
@@ -224,6 +249,18 @@ func translateTarget(t Target) (string, error) {
 		sb.WriteString("\n")
 	}
 
+	for _, c := range t.Consts {
+		def, err := tr.constant(c)
+		tr.report(c, nil, err)
+		if err != nil {
+			sb.WriteString("(* go2coq: FAILED constant " + c + ": " + cm(err.Error()) + " *)\n\n")
+			continue
+		}
+		sb.WriteString(def)
+	}
+	if len(t.Consts) > 0 {
+		sb.WriteString("\n")
+	}
 	for _, tb := range t.Tables {
 		def, err := tr.table(tb)
 		tr.report(tb, pi.vars[tb], err)
@@ -243,10 +280,31 @@ func translateTarget(t Target) (string, error) {
 			sb.WriteString("(* go2coq: FAILED " + fn + ": not found *)\n\n")
 			continue
 		}
-		def, err := tr.function(fn, fd)
+		var def string
+		var err error
+		if t.Mode == "abs" {
+			def, err = tr.absFunction(fn, fd)
+		} else {
+			def, err = tr.function(fn, fd)
+		}
 		tr.report(fn, fd, err)
 		if err != nil {
 			sb.WriteString("(* go2coq: FAILED " + fn + ": " + cm(err.Error()) + " *)\n\n")
+			continue
+		}
+		sb.WriteString(def + "\n")
+	}
+	for _, b := range t.Blocks {
+		fd := pi.funcs[b.Func]
+		if fd == nil {
+			tr.report(b.Name, nil, fmt.Errorf("function not found in source"))
+			sb.WriteString("(* go2coq: FAILED block " + b.Name + ": function not found *)\n\n")
+			continue
+		}
+		def, err := tr.absBlock(b, fd)
+		tr.report(b.Name, fd, err)
+		if err != nil {
+			sb.WriteString("(* go2coq: FAILED block " + b.Name + ": " + cm(err.Error()) + " *)\n\n")
 			continue
 		}
 		sb.WriteString(def + "\n")
@@ -305,6 +363,11 @@ type translator struct {
 	resultTys  []types.Type
 	alias      map[string]string // unsafe pointer aliases (ks -> k)
 	tmp        int
+	// abstract environment mode (abs.go)
+	abs      *absCtx
+	effIdx   map[string]int  // effect constants of this module
+	optFuncs map[string]bool // generated definitions whose result is an option (None = panic)
+	pending  string          // constant definitions to be emitted before the current definition
 }
 
 type trErr struct{ msg string }
@@ -556,6 +619,11 @@ func (tr *translator) constOf(e ast.Expr) (string, bool) {
 func (tr *translator) expr(e ast.Expr) string {
 	if c, ok := tr.constOf(e); ok {
 		return c
+	}
+	if tr.abs != nil {
+		if s, ok := tr.absExpr(e); ok {
+			return s
+		}
 	}
 	switch e := e.(type) {
 	case *ast.ParenExpr:
@@ -952,6 +1020,12 @@ func (tr *translator) call(e *ast.CallExpr) string {
 	if threaded {
 		fail(e, "state-threaded call %s used inside an expression", srcOf(e))
 	}
+	if tr.optFuncs[name] {
+		if tr.abs == nil || !tr.abs.allowOpt {
+			fail(e, "call of the panicking function %s in an unsupported position", srcOf(e.Fun))
+		}
+		tr.abs.allowOpt = false
+	}
 	var args []string
 	if recvX != nil {
 		rt := tr.typeOf(recvX)
@@ -1003,6 +1077,9 @@ func (tr *translator) statePat() []string {
 }
 
 func (tr *translator) retTuple(vals []string) string {
+	if tr.abs != nil {
+		return tr.absRet(vals)
+	}
 	all := append(append([]string{}, vals...), tr.statePat()...)
 	if len(all) == 0 {
 		return "tt"
@@ -1074,6 +1151,11 @@ func (tr *translator) zeroOf(n ast.Node, t types.Type) string {
 func (tr *translator) stmts(list []ast.Stmt, k func() string) string {
 	if len(list) == 0 {
 		return k()
+	}
+	if tr.abs != nil {
+		if s, ok := tr.absStmt(list, k); ok {
+			return s
+		}
 	}
 	s := list[0]
 	rest := func() string { return tr.stmts(list[1:], k) }
@@ -1300,6 +1382,12 @@ func (tr *translator) namedResults(n ast.Node) []string {
 
 func (tr *translator) panicValue(n ast.Node) string {
 	// a panic is modelled as returning zero results with the error result (if any) = Err_PANIC
+	if tr.abs != nil && tr.abs.block {
+		return tr.blockRet("Out_panic")
+	}
+	if tr.abs != nil && tr.abs.optPanic {
+		return "None"
+	}
 	var vals []string
 	hasErr := false
 	for _, t := range tr.resultTys {
